@@ -161,7 +161,10 @@ def h_network_swap(case):
         rd = gen.Rendering(gen.rng_for(sd, "Hswaprd", idx, kind_), molecule_state=True)
         system = gen.render_system(desc, rd)
         nsteps = 60 if kind_ != "gillespie" else 400
-        script = simhelp.make_script(system, r, dt_si=dt, t_sample_si=[0.0], policy="on_iteration", t_max_si=nsteps * dt,
+        t_max_si = nsteps * dt
+        if kind_ == "gillespie":      # one event per iteration: bound the run by events (macroscopic counts), not by time
+            t_max_si = min(t_max_si, 2000.0 / (sum(mag) + 1e-300))
+        script = simhelp.make_script(system, r, dt_si=dt, t_sample_si=[0.0], policy="on_iteration", t_max_si=t_max_si,
                                      usys=(gen.mild_sys(r)[0], gen.mild_sys(r)[1], "molecule"), isp="none", seed=r.randrange(2 ** 31))
         eng = engines.get(kind_)
         out1 = st.simulate_script(script, eng)
